@@ -118,6 +118,19 @@ def replay_chunk(chunk):
                     d = storereplay.diff(c["num"], scaled)
                     if d:
                         fails.append({"key": dict(key, what="Climate1D.__call__ differs from (f(x) + F f(F x)) / 2", detail=d), "case": c})
+                    if c["consts"]:
+                        # with constant fields: the inner 1-D model reads the constant rows and returns the dynamic rows only
+                        rows = {tuple(t): r for t, r in zip(c["to1d"]["order"], c["rowsd"])}
+
+                        def twin_c(y, aux=None, rows=rows):
+                            z, _ = twin(y)
+                            return geom.MultiImage({t: v[: rows[t]] for t, v in z.items()}, z.D, z.is_torus), aux
+                        cc = models.Climate1D(twin_c, geom.Signature(sig_d), T, T, tuple(c["x"]["dims"]), cdict, (True, False))
+                        outc, _ = cc(x)
+                        scaledc = geom.MultiImage({t: v * 2.0 for t, v in outc.items()}, outc.D, outc.is_torus)
+                        d = storereplay.diff(c["numc"], scaledc)
+                        if d:
+                            fails.append({"key": dict(key, what="Climate1D.__call__ with constant fields differs from (f(x) + F f(F x)) / 2", detail=d), "case": c})
         except RuntimeError:
             raise
         except Exception as ex:
